@@ -67,6 +67,7 @@ type loopInfo struct {
 	backSrc []*ssa.BasicBlock
 	ordinal int
 	spec    *LoopSpec
+	cutIndex int   // event index at which the loop was cut (modular loops)
 	idxKey  string // rangeindex local key, if any
 	iterVal ssa.Value
 	line    int
@@ -241,6 +242,10 @@ func (u *UnitGen) execRegion(fr *Frame, entry *ssa.BasicBlock, region map[*ssa.B
 			continue
 		}
 		label := fmt.Sprintf("f%db%d", fr.id, b.Index)
+		if fr.top {
+			u.topBlock = b
+			u.topFrame = fr
+		}
 		if fr.top && len(ins) > 1 && isPlainReturnBlock(b) && len(fr.defers) == 0 && len(fr.loopDefers) == 0 && fr.loopOf(b) == nil {
 			// tail duplication: a return block is executed once per incoming path, so that the
 			// postconditions are checked per path instead of on a merged state
@@ -395,6 +400,7 @@ func (u *UnitGen) cutLoop(fr *Frame, li *loopInfo, st *State) *State {
 	// ---- dry run 2: from an arbitrary iteration (everything written is havoced), record
 	// which objects each array is written at. A written index that does not depend on any
 	// name created since the havoc is the same object in every iteration.
+	outerNames := u.newNames
 	u.newNames = map[string]bool{}
 	tmp := st.clone()
 	for _, k := range keys {
@@ -421,7 +427,12 @@ func (u *UnitGen) cutLoop(fr *Frame, li *loopInfo, st *State) *State {
 	u.dry--
 	u.trackers = u.trackers[:len(u.trackers)-1]
 	newNames := u.newNames
-	u.newNames = nil
+	u.newNames = outerNames
+	if outerNames != nil {
+		for k := range newNames {
+			outerNames[k] = true
+		}
+	}
 	restore()
 	invariantTerm := func(t string) bool {
 		for _, tokn := range strings.FieldsFunc(t, func(r rune) bool { return r == ' ' || r == '(' || r == ')' }) {
@@ -433,6 +444,7 @@ func (u *UnitGen) cutLoop(fr *Frame, li *loopInfo, st *State) *State {
 	}
 
 	// ---- the cut
+	cutStart := len(u.events)
 	ns := st.clone()
 	for _, k := range keys {
 		if strings.HasPrefix(k, "region:") {
@@ -513,7 +525,7 @@ func (u *UnitGen) cutLoop(fr *Frame, li *loopInfo, st *State) *State {
 			u.pendingAxioms = append(u.pendingAxioms, pendingAxiom{k, nv})
 		}
 		if k == "top" {
-			u.assume(ns, App(SBool, "<=", u.top(st), nv))
+			u.assumeStructural(Implies(ns.reach, App(SBool, "<=", u.top(st), nv)))
 		}
 		if strings.HasPrefix(k, "l:") {
 			if ty, ok := u.localTypes[k]; ok {
@@ -529,6 +541,9 @@ func (u *UnitGen) cutLoop(fr *Frame, li *loopInfo, st *State) *State {
 		u.assumeTypedVal(ns, tv)
 	}
 	u.typedFresh = nil
+	if li.spec != nil && li.spec.Modular && u.dry == 0 {
+		li.cutIndex = cutStart
+	}
 	u.assumeInvariants(fr, li, ns)
 	return ns
 }
@@ -584,7 +599,7 @@ func (u *UnitGen) autoInvariants(fr *Frame, li *loopInfo, st *State) []Term {
 	for b := range li.blocks {
 		for _, in := range b.Instrs {
 			if s, ok := in.(*ssa.Store); ok {
-				if a, ok := s.Addr.(*ssa.Alloc); ok && a.Comment == "rangeindex" && !a.Heap {
+				if a, ok := s.Addr.(*ssa.Alloc); ok && a.Comment == "rangeindex" && !a.Heap && s.Block() == li.header {
 					k := fr.localKey(a)
 					if _, ok := u.varSort[k]; ok {
 						out = append(out, App(SBool, "<=", IntN(-1), u.get(st, k, SInt)))
@@ -658,16 +673,34 @@ func keySortIsInt(so Sort) bool {
 // Each clause is checked once per distinct (block) arrival at the line: before the first
 // instruction of that line in the current block.
 func (u *UnitGen) anchoredAsserts(fr *Frame, st *State, file string, line int) {
-	if u.contract == nil || len(u.contract.Asserts) == 0 || u.dry > 0 {
+	if u.contract == nil || (len(u.contract.Asserts) == 0 && len(u.contract.Ghosts) == 0) {
 		return
 	}
-	key := fmt.Sprintf("%s:%d:%p", file, line, st)
+	key := fmt.Sprintf("%s:%d:%p:%d", file, line, st, u.dry)
 	if u.assertDone[key] {
 		return
 	}
 	u.assertDone[key] = true
 	lines := u.g.lines(file)
 	if line < 1 || line > len(lines) {
+		return
+	}
+	// ghost snapshots: "at <anchor> ghost name = expr" stores the value of expr before the line executes
+	for i := range u.contract.Ghosts {
+		gu := &u.contract.Ghosts[i]
+		if !strings.Contains(lines[line-1], gu.Anchor) {
+			continue
+		}
+		gu.Hits++
+		env := fr.env.withState(st)
+		env.fr = fr
+		v := env.eval(gu.E)
+		gk := "GL:" + gu.Var
+		u.varSort[gk] = v.T.Sort
+		u.ghostLocals[gu.Var] = Val{Ty: v.Ty, isDom: v.isDom, KeyTy: v.KeyTy}
+		u.setDef(st, gk, v.T)
+	}
+	if u.dry > 0 {
 		return
 	}
 	for i := range u.contract.Asserts {
